@@ -669,12 +669,18 @@ class SymbolTable():
                     try:
                         # An unresolved symbol representing an intrinisc is OK
                         _ = IntrinsicCall.Intrinsic[this_sym.name.upper()]
-                        # Take this opportunity to specialise the symbol(s).
-                        if not isinstance(this_sym, IntrinsicSymbol):
-                            this_sym.specialise(IntrinsicSymbol)
-                        if not isinstance(other_sym, IntrinsicSymbol):
-                            other_sym.specialise(IntrinsicSymbol)
-                        continue
+                        # provided that both symbols can be an intrinsic
+                        # (e.g. neither of them is a DataSymbol). This
+                        # must be checked before either is altered.
+                        if (issubclass(IntrinsicSymbol, type(this_sym)) and
+                                issubclass(IntrinsicSymbol, type(other_sym))):
+                            # Take this opportunity to specialise the
+                            # symbol(s).
+                            if not isinstance(this_sym, IntrinsicSymbol):
+                                this_sym.specialise(IntrinsicSymbol)
+                            if not isinstance(other_sym, IntrinsicSymbol):
+                                other_sym.specialise(IntrinsicSymbol)
+                            continue
                     except KeyError:
                         pass
                 # We can't rename a symbol if we don't know its origin.
